@@ -5,7 +5,10 @@
    UnpackImportsMap, Model/Imports.v) yields, for every project whose names satisfy
    [names_ok] and for every injective serial assignment, import aliases that are valid Go
    identifiers and never name two packages - i.e. the import block of the generated file has
-   no malformed or duplicate alias.  The preconditions are necessary: [C09_unique_refuted_*]
+   no malformed or duplicate alias; and the import block is complete for the handlers: every
+   alias the rendered code refers to (controller, parameter types, the custom error a route
+   returns by value - also when the payload type lives in the error's package) is an emitted
+   import line [C09_referenced_aliases_are_imported].  The preconditions are necessary: [C09_unique_refuted_*]
    give projects (two controllers with one struct name, cf. F13; a controller named like a
    parameter alias) whose import block declares one alias twice.
    What is NOT proved (partial): that the handler bodies type-check ("every expression passed
@@ -33,6 +36,17 @@ Theorem C09_used_imports_wf : forall sr cs,
   (forall pkg a, In (pkg, a) (used_import_list sr cs) -> go_ident a = true) /\
   (forall p1 p2 a, In (p1, a) (used_import_list sr cs) -> In (p2, a) (used_import_list sr cs) -> p1 = p2).
 Proof. exact used_imports_wf. Qed.
+
+(* the import block is complete for the rendered code: every alias a handler refers to (its controller, the
+   types of its parameters, the custom error type it returns by value) is an import line the template emitted;
+   in particular a route returning (T, E), E a custom error by value, gets E's alias whatever the package of T *)
+Theorem C09_referenced_aliases_are_imported : forall sr cs x,
+  In x (used_import_list sr cs) -> In x (import_list sr cs).
+Proof. exact used_imports_are_imported. Qed.
+
+Theorem C09_custom_error_alias_imported : forall sr cs c r x,
+  In c cs -> In r (c_routes c) -> In x (last_resp_used sr r) -> In x (import_list sr cs).
+Proof. exact custom_error_alias_imported. Qed.
 
 (* sorting/de-duplicating as UnpackImportsMap does neither adds nor loses an import *)
 Theorem C09_sort_keeps_members : forall x l, In x (sort_pairs l) <-> In x l.
@@ -64,6 +78,12 @@ Example C09_nonvacuous_imports :
   [(s "m/ctl", s "BCtl"); (s "m/types", s "Param0k"); (s "m/types", s "Param3it")].
 Proof. exact demo_import_list. Qed.
 
+Example C09_nonvacuous_custom_error :
+  import_list cerr_sr cerr_cs =
+  [(s "m/ctl", s "OrdersCtl"); (s "m/ctl", s "Response1Dto"); (s "m/ctl", s "Response2Failure")]
+  /\ used_import_list cerr_sr cerr_cs = [(s "m/ctl", s "OrdersCtl"); (s "m/ctl", s "Response2Failure")].
+Proof. exact cerr_import_lists. Qed.
+
 Example C09_nonvacuous_oracle :
   prop_C09 (s "routes") true true
     (Some (mkFileObs true true (s "routes") [([], s "fmt", true); (s "BCtl", s "m/ctl", true)] true)) = true
@@ -78,10 +98,13 @@ Proof. exact demo_oracle. Qed.
 Print Assumptions C09_aliases_valid_identifiers.
 Print Assumptions C09_aliases_unique_per_package.
 Print Assumptions C09_used_imports_wf.
+Print Assumptions C09_referenced_aliases_are_imported.
+Print Assumptions C09_custom_error_alias_imported.
 Print Assumptions C09_sort_keeps_members.
 Print Assumptions C09_unique_refuted_same_name.
 Print Assumptions C09_unique_refuted_prefix.
 Print Assumptions C09_oracle_spec.
 Print Assumptions C09_nonvacuous_names.
 Print Assumptions C09_nonvacuous_imports.
+Print Assumptions C09_nonvacuous_custom_error.
 Print Assumptions C09_nonvacuous_oracle.
